@@ -5,27 +5,39 @@ seedtest.py -- run registered checks against a seeded change:
 applies seeded/<id>/patch.diff to /repo (git apply), runs ./check for the listed properties (default: the property in
 meta.json), records exit codes and VIOLATION lines into seeded/<id>/result.json, and always reverts /repo
 (git checkout -- .).  Never commits anything in /repo.
+With --scratch the patch is applied to a throw-away git worktree of /repo under /tmp instead (removed afterwards) and the
+checks read that tree (VERIF_REPO): several seeds for DIFFERENT properties can then be tried at the same time.
 """
 import sys, os, json, subprocess, argparse, time, re
 V = os.path.dirname(os.path.abspath(__file__))
 ap = argparse.ArgumentParser()
-ap.add_argument('dir'); ap.add_argument('--props'); ap.add_argument('--tier', default='quick'); ap.add_argument('--only')
+ap.add_argument('dir'); ap.add_argument('--props'); ap.add_argument('--tier', default='quick'); ap.add_argument('--only'); ap.add_argument('--scratch', action='store_true'); ap.add_argument('--jobs')
 a = ap.parse_args()
 d = os.path.abspath(a.dir)
 meta = json.load(open(os.path.join(d, 'meta.json'))) if os.path.exists(os.path.join(d, 'meta.json')) else {}
 props = a.props.split(',') if a.props else [meta.get('property')]
-st = subprocess.run(['git', '-C', '/repo', 'status', '--porcelain', '--untracked-files=no'], capture_output=True, text=True).stdout.strip()
-if st:
-    print('refusing: /repo has local modifications:\n' + st); sys.exit(2)
-r = subprocess.run(['git', '-C', '/repo', 'apply', os.path.join(d, 'patch.diff')], capture_output=True, text=True)
+TREE = '/repo'
+if a.scratch:
+    TREE = '/tmp/seedtree_' + os.path.basename(d)
+    subprocess.run(['git', '-C', '/repo', 'worktree', 'remove', '--force', TREE], capture_output=True)
+    r = subprocess.run(['git', '-C', '/repo', 'worktree', 'add', '--detach', TREE, 'HEAD'], capture_output=True, text=True)
+    if r.returncode != 0:
+        print('cannot create scratch worktree:', r.stderr); sys.exit(2)
+else:
+    st = subprocess.run(['git', '-C', '/repo', 'status', '--porcelain', '--untracked-files=no'], capture_output=True, text=True).stdout.strip()
+    if st:
+        print('refusing: /repo has local modifications:\n' + st); sys.exit(2)
+r = subprocess.run(['git', '-C', TREE, 'apply', os.path.join(d, 'patch.diff')], capture_output=True, text=True)
 if r.returncode != 0:
-    print('patch does not apply:', r.stderr); sys.exit(2)
+    print('patch does not apply:', r.stderr)
+    if a.scratch: subprocess.run(['git', '-C', '/repo', 'worktree', 'remove', '--force', TREE])
+    sys.exit(2)
 res = {}
 try:
     for p in props:
         t0 = time.time()
-        cmd = [os.path.join(V, 'check'), p, '--tier', a.tier, '--no-evidence'] + (['--only', a.only] if a.only else [])
-        r = subprocess.run(cmd, capture_output=True, text=True, cwd=V)
+        cmd = [os.path.join(V, 'check'), p, '--tier', a.tier, '--no-evidence'] + (['--only', a.only] if a.only else []) + (['--jobs', a.jobs] if a.jobs else [])
+        r = subprocess.run(cmd, capture_output=True, text=True, cwd=V, env=dict(os.environ, VERIF_REPO=TREE))
         viol = [l for l in r.stdout.split('\n') if l.startswith('VIOLATION')]
         other = [l[:300] for l in r.stdout.split('\n') if l.startswith(('MACHINERY', 'KNOWN-FINDING'))]
         res[p] = dict(exit=r.returncode, violations=[v[:400] for v in viol], other=other[:6], wall_s=round(time.time() - t0, 1),
@@ -34,7 +46,10 @@ try:
         for v in viol[:4]: print('   ', v[:260])
         for o in other[:3]: print('   ', o[:260])
 finally:
-    subprocess.run(['git', '-C', '/repo', 'checkout', '--', '.'])
+    if a.scratch:
+        subprocess.run(['git', '-C', '/repo', 'worktree', 'remove', '--force', TREE]); subprocess.run(['git', '-C', '/repo', 'worktree', 'prune'])
+    else:
+        subprocess.run(['git', '-C', '/repo', 'checkout', '--', '.'])
 out = os.path.join(d, 'result.json')
 old = json.load(open(out)) if os.path.exists(out) else {}
 old.update(res)
